@@ -43,6 +43,23 @@ def DEF():
     return Tok('DEF')
 
 
+class Sym(Tok):
+    """abstract float that is an exact polynomial over named input atoms (rational coefficients): closed under + - * and division
+    by a non-zero number; cos / sin / radians of a Sym are fresh atoms named after their argument.  Decides small algebraic maps
+    (an affine transform of a control point) exactly, for every value of the atoms."""
+    __slots__ = ('p',)
+
+    def __init__(self, p):
+        from .poly import Poly
+        if isinstance(p, str):
+            p = Poly.atom(p)
+        Tok.__init__(self, 'DEF', dep=frozenset(a for k in p.t for a, _ in k))
+        self.p = p
+
+    def __repr__(self):
+        return 'Sym(%r)' % (self.p,)
+
+
 class Mono(Tok):
     """abstract float that is a Laurent monomial over labelled input atoms (x * w, x / w, w ...): closed under * and /; any other
     arithmetic degrades it to a plain token carrying the dependency footprint.  Decides 'is this coordinate multiplied or divided
@@ -330,6 +347,19 @@ class SK(object):
             return Ord(b.rank + a.mag)
         if isinstance(a, Gap) and isinstance(b, Gap) and op in (o.add, o.sub):
             return Gap(op(a.mag, b.mag))
+        if isinstance(a, Sym) or isinstance(b, Sym):
+            num = lambda x: isinstance(x, (int, float)) and not isinstance(x, bool)
+            lit = lambda x: x.val if isinstance(x, Tok) and x.kind == 'PH0' and num(x.val) else x      # a literal initial fill is its number
+            a, b = lit(a), lit(b)
+            pa = a.p if isinstance(a, Sym) else (a if num(a) else None)
+            pb = b.p if isinstance(b, Sym) else (b if num(b) else None)
+            if pa is not None and pb is not None:
+                if op in (o.add, o.sub, o.mul):
+                    r = op(pa, pb)
+                    return Sym(r)
+                if op is o.truediv and num(b) and b != 0:
+                    from fractions import Fraction
+                    return Sym(pa * (1 / Fraction(b)))
         if isinstance(a, Mono) and isinstance(b, Mono) and op in (o.mul, o.truediv):
             return a.combine(b, 1 if op is o.mul else -1)
         if isinstance(a, Mono) and isinstance(b, (int, float)) and not isinstance(b, bool) and b == 1 and op in (o.mul, o.truediv):
@@ -373,6 +403,8 @@ class SK(object):
             if isinstance(v, Tok):
                 raise Unsupported('truth value of abstract float')
             return not v
+        if isinstance(v, Sym):
+            return Sym(-v.p) if isinstance(e.op, ast.USub) else v
         if isinstance(v, Tok):
             return self.arith(lambda a, b: a, v, 0, e)
         if v is None or isinstance(v, list):
@@ -411,6 +443,18 @@ class SK(object):
                         return False
                     l = r
                     continue
+                if (isinstance(l, Sym) or isinstance(r, Sym)) and isinstance(op, (ast.Eq, ast.NotEq)):
+                    # symbolic atoms stand for generic reals: two polynomials are equal only if they are identical
+                    from .poly import _p
+                    pl = l.p if isinstance(l, Sym) else (l if isinstance(l, (int, float)) and not isinstance(l, bool) else None)
+                    pr = r.p if isinstance(r, Sym) else (r if isinstance(r, (int, float)) and not isinstance(r, bool) else None)
+                    if pl is not None and pr is not None:
+                        same = _p(pl) == _p(pr)
+                        res = same if isinstance(op, ast.Eq) else not same
+                        if not res:
+                            return False
+                        l = r
+                        continue
                 if self.decisions is not None:
                     # PH0 is the literal initial fill 0.0/1.0 of this run: comparisons of it with a literal are concrete only for ==/!= 0.0
                     k = len(self.trace)
@@ -454,6 +498,8 @@ class SK(object):
             for w in works:
                 if -len(src) <= i < len(src) and len(w) == len(src) and not same_cells(src[i], w[i]):
                     self.stale.append((e, i))
+        if isinstance(b, Bag) and '__iter__' in b._a:
+            b = b._a['__iter__']
         try:
             return b[i]
         except (IndexError, KeyError):
@@ -489,6 +535,8 @@ class SK(object):
     def iterate(self, v, node):
         if v is None or isinstance(v, Tok):
             raise Violation('SK2', 'iteration over placeholder %r' % (v,), node)
+        if isinstance(v, Bag) and '__iter__' in v._a:
+            return list(v._a['__iter__'])
         return v
 
     def e_Call(self, e, env):
@@ -701,6 +749,8 @@ class SK(object):
 
 def math_fn(name, *a):
     import math
+    if len(a) == 1 and isinstance(a[0], Sym) and name in ('cos', 'sin', 'radians'):
+        return Sym('%s(%r)' % (name, a[0].p))
     if any(isinstance(x, Tok) for x in a):
         return DEF()
     return getattr(math, name)(*a)
